@@ -1,8 +1,1677 @@
-//! C15 — not implemented yet (stub).
-use crate::engine::Opts;
-pub fn main(_opts: &Opts) -> i32 {
-    eprintln!("C15: check not implemented");
-    2
+//! C15 — streams deliver exactly the prefix before a failure and blame the right side.
+//!
+//! Exhaustive fault enumeration over: source kind x adapter chain (every sequence of
+//! length <= 3 over filter / map / filter_map / to_quads|to_triples, plus `into_iter()`
+//! of a final map / filter_map) x consumer (closure through the three drivers,
+//! collectors, store insertion/removal, serializers on a failing writer) x single fault
+//! (none, source fault at k, sink fault at k).
+//!
+//! The adapters are the real sophia adapters nested directly on each other; the chain is
+//! built by a depth-indexed generic function (monomorphised for all 85 chains and every
+//! source type) and handed to the consumer through a thin type-erasing `Source` shim
+//! (`BoxTS` / `BoxQS`). A dozen pipelines are additionally built fully statically (no shim).
+//!
+//! Oracle: the chain is mirrored by model functions on model quads; instrumented sources
+//! and sinks record pulls and deliveries; see `judge`.
+use crate::engine::*;
+use crate::model::*;
+use crate::nqread;
+use crate::stores::{TinyFastDataset, TinyFastGraph, ST};
+use proptest::prelude::*;
+use serde::{Deserialize, Serialize};
+use serde_json::{json, Value};
+use sophia_api::dataset::{Dataset, MutableDataset};
+use sophia_api::graph::{Graph, MutableGraph};
+use sophia_api::parser::{QuadParser, TripleParser};
+use sophia_api::quad::{Quad, Spog};
+use sophia_api::serializer::{QuadSerializer, TripleSerializer};
+use sophia_api::source::StreamError::{SinkError, SourceError};
+use sophia_api::source::{QuadSource, Source, StreamError, StreamResult, TripleSource};
+use sophia_api::term::{GraphName, Term};
+use sophia_api::triple::Triple;
+use sophia_inmem::dataset::FastDataset;
+use sophia_inmem::graph::FastGraph;
+use sophia_turtle::parser::{nq::NQuadsParser, nt::NTriplesParser, trig::TriGParser, turtle::TurtleParser};
+use sophia_turtle::serializer::{nq::NqSerializer, nt::NtSerializer, trig::TrigSerializer, turtle::TurtleSerializer};
+use std::cell::Cell;
+use std::collections::{BTreeSet, HashSet};
+use std::convert::Infallible;
+use std::error::Error;
+use std::fmt;
+use std::io;
+use std::marker::PhantomData;
+use std::rc::Rc;
+
+// ------------------------------------------------------------------ case
+
+#[derive(Clone, Copy, Debug, Serialize, Deserialize, PartialEq, Eq)]
+pub struct Item {
+    pub s: u8,
+    pub p: u8,
+    pub o: u8,
+    pub g: u8,
+}
+
+#[derive(Clone, Copy, Debug, Serialize, Deserialize, PartialEq, Eq)]
+pub enum Fault {
+    None,
+    /// the source fails instead of yielding its k-th item
+    Source(u8),
+    /// the consumer fails on the k-th item delivered to it (closure / failing store),
+    /// or the writer fails inside the k-th statement (serializers); ignored by consumers
+    /// that cannot fail
+    Sink(u8),
+}
+
+#[derive(Clone, Debug, Serialize, Deserialize)]
+pub struct Case {
+    /// index in KINDS
+    pub kind: u8,
+    pub items: Vec<Item>,
+    /// 0 filter, 1 map, 2 filter_map, 3 to_quads / to_triples
+    pub chain: Vec<u8>,
+    /// call `into_iter()` on the final map / filter_map adapter
+    pub into_iter: bool,
+    /// index in SINKS
+    pub sink: u8,
+    pub fault: Fault,
+    /// capacity choice of the Tiny index / byte offset inside the failing statement
+    pub aux: u8,
+    /// build the pipeline statically (no type-erasing shim) when it is one of DIRECT
+    pub direct: bool,
+}
+
+const KINDS: &[&str] = &[
+    "iter-triples",
+    "iter-quads",
+    "nt-parser",
+    "nq-parser",
+    "turtle-parser",
+    "turtle-parser-grouped",
+    "trig-parser",
+    "vec-store-triples",
+    "vec-store-quads",
+    "fast-graph-triples",
+    "fast-dataset-quads",
+];
+fn kind_is_quads(k: usize) -> bool {
+    matches!(k, 1 | 3 | 6 | 8 | 10)
+}
+fn kind_can_fail(k: usize) -> bool {
+    k <= 6
+}
+fn kind_counts_pulls(k: usize) -> bool {
+    k <= 1
+}
+
+const ADAPTERS: &[&str] = &["filter", "map", "filter_map", "convert"];
+
+const SINKS: &[&str] = &[
+    "try_for_each_item(closure)",
+    "loop{try_for_some_item(closure)}",
+    "for_each_item(closure)",
+    "collect->Vec",
+    "collect->HashSet",
+    "collect->Fast",
+    "collect->TinyFast",
+    "insert_all(TinyFast)",
+    "remove_all(Fast)",
+    "insert_all(FailingStore)",
+    "remove_all(FailingStore)",
+    "add_to(Vec)",
+    "serialize(NT/NQ, failing writer)",
+    "serialize(Turtle/TriG, failing writer)",
+];
+/// can this consumer fail at a chosen position?
+fn sink_can_fail(s: usize) -> bool {
+    matches!(s, 0 | 1 | 9 | 10 | 12 | 13)
+}
+/// does the failure position come from `aux` (index capacity) rather than from `Fault::Sink`?
+fn sink_fails_by_capacity(s: usize) -> bool {
+    matches!(s, 6 | 7)
+}
+
+/// statically built pipelines: (kind, chain, into_iter)
+const DIRECT: &[(u8, &[u8], bool)] = &[
+    (0, &[0, 1], false),
+    (2, &[2, 3], false),
+    (3, &[3, 0], false),
+    (7, &[1], true),
+    (5, &[0], false),
+    (1, &[2, 3], false),
+    (6, &[0, 1, 2], false),
+    (10, &[1, 0], false),
+    (0, &[], false),
+    (2, &[], false),
+    (1, &[0, 2], true),
+    (4, &[1, 1, 1], false),
+];
+
+// ------------------------------------------------------------------ items and model adapters
+
+fn pool_s() -> Vec<MT> {
+    vec![MT::iri("http://x/s0"), MT::iri("http://x/s1"), MT::bn("b0")]
+}
+fn pool_p() -> Vec<MT> {
+    vec![MT::iri("http://x/p0"), MT::iri("http://x/p1")]
+}
+fn pool_o() -> Vec<MT> {
+    vec![MT::iri("http://x/o0"), MT::iri("http://x/o1"), MT::string("v"), MT::lang("w", "en"), MT::bn("b1")]
+}
+fn pool_g() -> Vec<Option<MT>> {
+    vec![None, Some(MT::iri("http://x/g0")), Some(MT::bn("g1"))]
+}
+fn item_mq(i: &Item, quads: bool) -> MQ {
+    let (s, p, o, g) = (pool_s(), pool_p(), pool_o(), pool_g());
+    MQ::new(
+        s[i.s as usize % s.len()].clone(),
+        p[i.p as usize % p.len()].clone(),
+        o[i.o as usize % o.len()].clone(),
+        if quads { g[i.g as usize % g.len()].clone() } else { None },
+    )
+}
+
+fn mq_t<T: Triple>(t: &T) -> MQ {
+    MQ { s: MT::from_term(t.s()), p: MT::from_term(t.p()), o: MT::from_term(t.o()), g: None }
+}
+fn mq_q<Q: Quad>(q: &Q) -> MQ {
+    MQ { s: MT::from_term(q.s()), p: MT::from_term(q.p()), o: MT::from_term(q.o()), g: q.g().map(MT::from_term) }
+}
+fn t_of(q: &MQ) -> [ST; 3] {
+    q.to_triple()
+}
+fn q_of(q: &MQ) -> Spog<ST> {
+    q.to_spog()
+}
+
+/// small deterministic fingerprint of a model quad
+fn tag(q: &MQ) -> u32 {
+    q.show().bytes().fold(7u32, |a, b| a.wrapping_mul(31).wrapping_add(b as u32)) % 1009
+}
+fn short(t: &MT) -> String {
+    match t {
+        MT::Iri(i) => i.rsplit('/').next().unwrap_or("").to_string(),
+        MT::Bnode(b) => format!("_{b}"),
+        MT::Lit(l, _) => l.clone(),
+        MT::Lang(l, t) => format!("{l}@{t}"),
+        other => other.show(),
+    }
+}
+fn m_filter(lvl: u32, q: &MQ) -> bool {
+    (tag(q) + lvl) % 3 != 0
+}
+fn m_map(lvl: u32, q: &MQ) -> MQ {
+    let mut r = q.clone();
+    r.o = MT::string(format!("m{lvl}:{}", short(&q.o)));
+    r
+}
+fn m_filter_map(lvl: u32, q: &MQ) -> Option<MQ> {
+    if (tag(q) + lvl) % 4 == 1 {
+        None
+    } else {
+        let mut r = q.clone();
+        r.o = MT::string(format!("f{lvl}:{}", short(&q.o)));
+        Some(r)
+    }
+}
+
+/// Model of the chain: image of each source item (with its source index).
+fn model_image(src: &[MQ], chain: &[u8]) -> Vec<(usize, MQ)> {
+    let mut out = vec![];
+    'items: for (i, q) in src.iter().enumerate() {
+        let mut cur = q.clone();
+        for (lvl, a) in chain.iter().enumerate() {
+            let lvl = lvl as u32;
+            match a % 4 {
+                0 => {
+                    if !m_filter(lvl, &cur) {
+                        continue 'items;
+                    }
+                }
+                1 => cur = m_map(lvl, &cur),
+                2 => match m_filter_map(lvl, &cur) {
+                    None => continue 'items,
+                    Some(r) => cur = r,
+                },
+                _ => cur.g = None, // quads -> triples drops the graph name; triples -> quads: default graph
+            }
+        }
+        out.push((i, cur));
+    }
+    out
+}
+fn final_is_quads(kind: usize, chain: &[u8]) -> bool {
+    let flips = chain.iter().filter(|a| **a % 4 == 3).count();
+    kind_is_quads(kind) ^ (flips % 2 == 1)
+}
+
+// ------------------------------------------------------------------ errors
+
+/// identity token carried by every injected error
+#[derive(Debug, Clone, Copy, PartialEq, Eq)]
+pub struct Tok(pub u32);
+impl fmt::Display for Tok {
+    fn fmt(&self, f: &mut fmt::Formatter<'_>) -> fmt::Result {
+        write!(f, "injected fault #{}", self.0)
+    }
+}
+impl Error for Tok {}
+
+#[derive(Debug)]
+struct Stop;
+impl fmt::Display for Stop {
+    fn fmt(&self, f: &mut fmt::Formatter<'_>) -> fmt::Result {
+        write!(f, "stop")
+    }
+}
+impl Error for Stop {}
+
+/// erased source error of the shim
+#[derive(Debug)]
+pub struct SrcErr(Box<dyn Error + Send + Sync + 'static>);
+impl fmt::Display for SrcErr {
+    fn fmt(&self, f: &mut fmt::Formatter<'_>) -> fmt::Result {
+        self.0.fmt(f)
+    }
+}
+impl Error for SrcErr {}
+
+#[derive(Debug, Clone)]
+struct ErrInfo {
+    tok: Option<u32>,
+    text: String,
+}
+fn find_tok(e: &(dyn Error + 'static)) -> Option<u32> {
+    if let Some(t) = e.downcast_ref::<Tok>() {
+        return Some(t.0);
+    }
+    if let Some(s) = e.downcast_ref::<SrcErr>() {
+        return find_tok(&*s.0);
+    }
+    if let Some(io) = e.downcast_ref::<io::Error>() {
+        if let Some(inner) = io.get_ref() {
+            return find_tok(inner);
+        }
+        return None;
+    }
+    e.source().and_then(find_tok)
+}
+fn describe<E: Error + 'static>(e: &E) -> ErrInfo {
+    ErrInfo { tok: find_tok(e), text: e.to_string() }
+}
+
+#[derive(Debug, Clone)]
+enum Res {
+    Ok(Option<usize>),
+    Src(ErrInfo),
+    Sink(ErrInfo),
+}
+fn res_of<E1: Error + 'static, E2: Error + 'static>(r: Result<Option<usize>, StreamError<E1, E2>>) -> Res {
+    match r {
+        Ok(c) => Res::Ok(c),
+        Err(SourceError(e)) => Res::Src(describe(&e)),
+        Err(SinkError(e)) => Res::Sink(describe(&e)),
+    }
+}
+
+// ------------------------------------------------------------------ instrumented sources
+
+struct FaultyIter<T> {
+    items: Vec<T>,
+    pos: usize,
+    fault: Option<usize>,
+    fired: bool,
+    pulls: Rc<Cell<usize>>,
+}
+impl<T: Clone> Iterator for FaultyIter<T> {
+    type Item = Result<T, Tok>;
+    fn next(&mut self) -> Option<Self::Item> {
+        self.pulls.set(self.pulls.get() + 1);
+        if Some(self.pos) == self.fault && !self.fired {
+            self.fired = true;
+            // the faulty element replaces item k; a consumer that wrongly goes on sees k+1..
+            self.pos += 1;
+            return Some(Err(Tok(self.pos as u32 - 1)));
+        }
+        let r = self.items.get(self.pos).cloned().map(Ok);
+        if r.is_some() {
+            self.pos += 1;
+        }
+        r
+    }
+}
+
+fn nt_term(t: &MT) -> String {
+    match t {
+        MT::Iri(i) => format!("<{i}>"),
+        MT::Bnode(b) => format!("_:{b}"),
+        MT::Lit(l, d) if d == XSD_STRING => format!("\"{l}\""),
+        MT::Lit(l, d) => format!("\"{l}\"^^<{d}>"),
+        MT::Lang(l, t) => format!("\"{l}\"@{t}"),
+        other => other.show(),
+    }
+}
+const BAD_LINE: &str = "<http://x/bad> <http://x/bad> .";
+
+/// One statement per line (N-Triples / N-Quads / Turtle / TriG flavours); the statement
+/// of item k is replaced by a syntax error when `fault == Some(k)`.
+fn text_for(kind: usize, src: &[MQ], fault: Option<usize>) -> String {
+    let mut out = String::new();
+    let mut i = 0;
+    while i < src.len() {
+        if Some(i) == fault {
+            out.push_str(BAD_LINE);
+            out.push('\n');
+            i += 1;
+            continue;
+        }
+        let q = &src[i];
+        let spo = format!("{} {} {}", nt_term(&q.s), nt_term(&q.p), nt_term(&q.o));
+        match kind {
+            3 => match &q.g {
+                None => out.push_str(&format!("{spo} .\n")),
+                Some(g) => out.push_str(&format!("{spo} {} .\n", nt_term(g))),
+            },
+            6 => match &q.g {
+                None => out.push_str(&format!("{spo} .\n")),
+                Some(g) => out.push_str(&format!("{} {{ {spo} . }}\n", nt_term(g))),
+            },
+            5 => {
+                // group the following items with the same subject into one statement
+                let mut stmt = spo;
+                let mut j = i + 1;
+                while j < src.len() && Some(j) != fault && src[j].s == q.s && j - i < 3 {
+                    stmt.push_str(&format!(" ; {} {}", nt_term(&src[j].p), nt_term(&src[j].o)));
+                    j += 1;
+                }
+                out.push_str(&format!("{stmt} .\n"));
+                i = j;
+                continue;
+            }
+            _ => out.push_str(&format!("{spo} .\n")),
+        }
+        i += 1;
+    }
+    out
+}
+
+// ------------------------------------------------------------------ type-erasing shim
+
+fn own_t<T: Triple>(t: &T) -> [ST; 3] {
+    [t.s().into_term(), t.p().into_term(), t.o().into_term()]
+}
+fn own_q<Q: Quad>(q: &Q) -> Spog<ST> {
+    ([q.s().into_term(), q.p().into_term(), q.o().into_term()], q.g().map(|g| g.into_term()))
+}
+
+trait DynT {
+    fn step(&mut self, f: &mut dyn FnMut([ST; 3]) -> Result<(), Stop>) -> StreamResult<bool, SrcErr, Stop>;
+}
+struct HoldT<S>(S);
+impl<S: TripleSource> DynT for HoldT<S> {
+    fn step(&mut self, f: &mut dyn FnMut([ST; 3]) -> Result<(), Stop>) -> StreamResult<bool, SrcErr, Stop> {
+        self.0
+            .try_for_some_item(|t| f(own_t(&t)))
+            .map_err(|e| e.map_source(|e| SrcErr(Box::new(e))))
+    }
+}
+pub struct BoxTS<'a>(Box<dyn DynT + 'a>);
+impl<'a> BoxTS<'a> {
+    fn new<S: TripleSource + 'a>(s: S) -> Self {
+        BoxTS(Box::new(HoldT(s)))
+    }
+}
+impl Source for BoxTS<'_> {
+    type Item<'x> = [ST; 3];
+    type Error = SrcErr;
+    fn try_for_some_item<E, F>(&mut self, mut f: F) -> StreamResult<bool, SrcErr, E>
+    where
+        E: Error + Send + Sync + 'static,
+        F: FnMut(Self::Item<'_>) -> Result<(), E>,
+    {
+        let mut stash: Option<E> = None;
+        let r = self.0.step(&mut |t| {
+            f(t).map_err(|e| {
+                stash = Some(e);
+                Stop
+            })
+        });
+        match r {
+            Ok(b) => Ok(b),
+            Err(SourceError(e)) => Err(SourceError(e)),
+            Err(SinkError(Stop)) => Err(SinkError(stash.expect("shim: sink error without a stashed value"))),
+        }
+    }
+}
+
+trait DynQ {
+    fn step(&mut self, f: &mut dyn FnMut(Spog<ST>) -> Result<(), Stop>) -> StreamResult<bool, SrcErr, Stop>;
+}
+struct HoldQ<S>(S);
+impl<S: QuadSource> DynQ for HoldQ<S> {
+    fn step(&mut self, f: &mut dyn FnMut(Spog<ST>) -> Result<(), Stop>) -> StreamResult<bool, SrcErr, Stop> {
+        self.0
+            .try_for_some_item(|q| f(own_q(&q)))
+            .map_err(|e| e.map_source(|e| SrcErr(Box::new(e))))
+    }
+}
+pub struct BoxQS<'a>(Box<dyn DynQ + 'a>);
+impl<'a> BoxQS<'a> {
+    fn new<S: QuadSource + 'a>(s: S) -> Self {
+        BoxQS(Box::new(HoldQ(s)))
+    }
+}
+impl Source for BoxQS<'_> {
+    type Item<'x> = Spog<ST>;
+    type Error = SrcErr;
+    fn try_for_some_item<E, F>(&mut self, mut f: F) -> StreamResult<bool, SrcErr, E>
+    where
+        E: Error + Send + Sync + 'static,
+        F: FnMut(Self::Item<'_>) -> Result<(), E>,
+    {
+        let mut stash: Option<E> = None;
+        let r = self.0.step(&mut |q| {
+            f(q).map_err(|e| {
+                stash = Some(e);
+                Stop
+            })
+        });
+        match r {
+            Ok(b) => Ok(b),
+            Err(SourceError(e)) => Err(SourceError(e)),
+            Err(SinkError(Stop)) => Err(SinkError(stash.expect("shim: sink error without a stashed value"))),
+        }
+    }
+}
+
+pub enum Built<'a> {
+    T(BoxTS<'a>),
+    Q(BoxQS<'a>),
+}
+
+// ------------------------------------------------------------------ real adapters (mirrors of the model functions)
+
+macro_rules! flt_t {
+    ($s:expr, $l:expr) => {{
+        let l: u32 = $l;
+        $s.filter_triples(move |t| m_filter(l, &mq_t(t)))
+    }};
+}
+macro_rules! map_t {
+    ($s:expr, $l:expr) => {{
+        let l: u32 = $l;
+        $s.map_triples(move |t| t_of(&m_map(l, &mq_t(&t))))
+    }};
+}
+macro_rules! fm_t {
+    ($s:expr, $l:expr) => {{
+        let l: u32 = $l;
+        $s.filter_map_triples(move |t| m_filter_map(l, &mq_t(&t)).map(|q| t_of(&q)))
+    }};
+}
+macro_rules! flt_q {
+    ($s:expr, $l:expr) => {{
+        let l: u32 = $l;
+        $s.filter_quads(move |q| m_filter(l, &mq_q(q)))
+    }};
+}
+macro_rules! map_q {
+    ($s:expr, $l:expr) => {{
+        let l: u32 = $l;
+        $s.map_quads(move |q| q_of(&m_map(l, &mq_q(&q))))
+    }};
+}
+macro_rules! fm_q {
+    ($s:expr, $l:expr) => {{
+        let l: u32 = $l;
+        $s.filter_map_quads(move |q| m_filter_map(l, &mq_q(&q)).map(|r| q_of(&r)))
+    }};
+}
+
+/// Depth-indexed chain builder: `D3::go_t(source, chain, 0, into_iter)` nests the real
+/// adapters directly on each other; monomorphised for every chain of length <= 3.
+trait Depth {
+    fn go_t<'a, S: TripleSource + 'a>(s: S, chain: &[u8], lvl: u32, ii: bool) -> Built<'a>;
+    fn go_q<'a, S: QuadSource + 'a>(s: S, chain: &[u8], lvl: u32, ii: bool) -> Built<'a>;
+}
+struct D0;
+struct DS<P>(PhantomData<P>);
+type D3 = DS<DS<DS<D0>>>;
+impl Depth for D0 {
+    fn go_t<'a, S: TripleSource + 'a>(s: S, chain: &[u8], _lvl: u32, _ii: bool) -> Built<'a> {
+        assert!(chain.is_empty(), "chain longer than the supported depth");
+        Built::T(BoxTS::new(s))
+    }
+    fn go_q<'a, S: QuadSource + 'a>(s: S, chain: &[u8], _lvl: u32, _ii: bool) -> Built<'a> {
+        assert!(chain.is_empty(), "chain longer than the supported depth");
+        Built::Q(BoxQS::new(s))
+    }
+}
+impl<P: Depth> Depth for DS<P> {
+    fn go_t<'a, S: TripleSource + 'a>(s: S, chain: &[u8], lvl: u32, ii: bool) -> Built<'a> {
+        let Some((a, rest)) = chain.split_first() else {
+            return Built::T(BoxTS::new(s));
+        };
+        let last_ii = ii && rest.is_empty();
+        match a % 4 {
+            0 => P::go_t(flt_t!(s, lvl), rest, lvl + 1, ii),
+            1 => {
+                let m = map_t!(s, lvl);
+                if last_ii {
+                    Built::T(BoxTS::new(m.into_iter()))
+                } else {
+                    P::go_t(m, rest, lvl + 1, ii)
+                }
+            }
+            2 => {
+                let m = fm_t!(s, lvl);
+                if last_ii {
+                    Built::T(BoxTS::new(m.into_iter()))
+                } else {
+                    P::go_t(m, rest, lvl + 1, ii)
+                }
+            }
+            _ => P::go_q(s.to_quads(), rest, lvl + 1, ii),
+        }
+    }
+    fn go_q<'a, S: QuadSource + 'a>(s: S, chain: &[u8], lvl: u32, ii: bool) -> Built<'a> {
+        let Some((a, rest)) = chain.split_first() else {
+            return Built::Q(BoxQS::new(s));
+        };
+        let last_ii = ii && rest.is_empty();
+        match a % 4 {
+            0 => P::go_q(flt_q!(s, lvl), rest, lvl + 1, ii),
+            1 => {
+                let m = map_q!(s, lvl);
+                if last_ii {
+                    Built::Q(BoxQS::new(m.into_iter()))
+                } else {
+                    P::go_q(m, rest, lvl + 1, ii)
+                }
+            }
+            2 => {
+                let m = fm_q!(s, lvl);
+                if last_ii {
+                    Built::Q(BoxQS::new(m.into_iter()))
+                } else {
+                    P::go_q(m, rest, lvl + 1, ii)
+                }
+            }
+            _ => P::go_t(s.to_triples(), rest, lvl + 1, ii),
+        }
+    }
+}
+
+// ------------------------------------------------------------------ instrumented sinks
+
+struct FailWriter {
+    buf: Vec<u8>,
+    limit: Option<usize>,
+}
+impl io::Write for FailWriter {
+    fn write(&mut self, data: &[u8]) -> io::Result<usize> {
+        if let Some(l) = self.limit {
+            if self.buf.len() + data.len() > l {
+                return Err(io::Error::new(io::ErrorKind::Other, Tok(l as u32)));
+            }
+        }
+        self.buf.extend_from_slice(data);
+        Ok(data.len())
+    }
+    fn flush(&mut self) -> io::Result<()> {
+        Ok(())
+    }
+}
+
+/// A minimal set store whose mutations fail at a chosen call; `insert_all` / `remove_all`
+/// are the default implementations of the sophia traits.
+struct FailStore {
+    content: Vec<MQ>,
+    attempts: Vec<MQ>,
+    fail_at: Option<u32>,
+}
+impl FailStore {
+    fn new(init: &[MQ], fail_at: Option<u32>) -> Self {
+        let mut content: Vec<MQ> = vec![];
+        for q in init {
+            if !content.contains(q) {
+                content.push(q.clone());
+            }
+        }
+        FailStore { content, attempts: vec![], fail_at }
+    }
+    fn attempt(&mut self, q: MQ, insert: bool) -> Result<bool, Tok> {
+        let n = self.attempts.len() as u32;
+        self.attempts.push(q.clone());
+        if Some(n) == self.fail_at {
+            return Err(Tok(n));
+        }
+        let present = self.content.contains(&q);
+        if insert {
+            if !present {
+                self.content.push(q);
+            }
+            Ok(!present)
+        } else {
+            self.content.retain(|x| *x != q);
+            Ok(present)
+        }
+    }
+}
+impl Graph for FailStore {
+    type Triple<'x> = [ST; 3];
+    type Error = Infallible;
+    fn triples(&self) -> impl Iterator<Item = Result<[ST; 3], Infallible>> + '_ {
+        self.content.iter().map(|q| Ok(q.to_triple()))
+    }
+}
+impl MutableGraph for FailStore {
+    type MutationError = Tok;
+    fn insert<TS: Term, TP: Term, TO: Term>(&mut self, s: TS, p: TP, o: TO) -> Result<bool, Tok> {
+        let q = MQ::new(MT::from_term(s), MT::from_term(p), MT::from_term(o), None);
+        self.attempt(q, true)
+    }
+    fn remove<TS: Term, TP: Term, TO: Term>(&mut self, s: TS, p: TP, o: TO) -> Result<bool, Tok> {
+        let q = MQ::new(MT::from_term(s), MT::from_term(p), MT::from_term(o), None);
+        self.attempt(q, false)
+    }
+}
+impl Dataset for FailStore {
+    type Quad<'x> = Spog<ST>;
+    type Error = Infallible;
+    fn quads(&self) -> impl Iterator<Item = Result<Spog<ST>, Infallible>> + '_ {
+        self.content.iter().map(|q| Ok(q.to_spog()))
+    }
+}
+impl MutableDataset for FailStore {
+    type MutationError = Tok;
+    fn insert<TS: Term, TP: Term, TO: Term, TG: Term>(&mut self, s: TS, p: TP, o: TO, g: GraphName<TG>) -> Result<bool, Tok> {
+        let q = MQ::new(MT::from_term(s), MT::from_term(p), MT::from_term(o), g.map(MT::from_term));
+        self.attempt(q, true)
+    }
+    fn remove<TS: Term, TP: Term, TO: Term, TG: Term>(&mut self, s: TS, p: TP, o: TO, g: GraphName<TG>) -> Result<bool, Tok> {
+        let q = MQ::new(MT::from_term(s), MT::from_term(p), MT::from_term(o), g.map(MT::from_term));
+        self.attempt(q, false)
+    }
+}
+
+#[derive(Debug, Clone)]
+struct SinkSpec {
+    sink: usize,
+    /// closure / failing store: index of the failing delivery; serializers: byte limit
+    fail_at: Option<u32>,
+    /// Tiny index capacity (3, 5 or 8)
+    cap: u8,
+    /// initial content of the target store
+    init: Vec<MQ>,
+}
+
+#[derive(Debug, Default)]
+struct Outcome {
+    /// items seen by the closure / offered to the failing store, in order
+    delivered: Option<Vec<MQ>>,
+    res: Option<Res>,
+    /// collected container (in order for Vec, sorted otherwise)
+    collected: Option<Vec<MQ>>,
+    /// content of the target store afterwards (sorted; in order for Vec)
+    store: Option<Vec<MQ>>,
+    written: Option<Vec<u8>>,
+}
+
+fn sorted_set(v: Vec<MQ>) -> Vec<MQ> {
+    let s: BTreeSet<MQ> = v.into_iter().collect();
+    s.into_iter().collect()
+}
+
+macro_rules! tiny_graph_sink {
+    ($m:literal, $s:expr, $sp:expr, $insert:expr) => {{
+        if $insert {
+            let mut g = TinyFastGraph::<$m>::new();
+            for q in &$sp.init {
+                let [s, p, o] = q.to_triple();
+                g.insert(s, p, o).expect("initial content fits by construction");
+            }
+            let r = $s.add_to_graph(&mut g);
+            Outcome { res: Some(res_of(r.map(Some))), store: Some(sorted_set(collect_graph(&g))), ..Outcome::default() }
+        } else {
+            let r: StreamResult<TinyFastGraph<$m>, _, _> = $s.collect_triples();
+            match r {
+                Ok(g) => Outcome { res: Some(Res::Ok(None)), collected: Some(sorted_set(collect_graph(&g))), ..Outcome::default() },
+                Err(e) => Outcome { res: Some(res_of::<_, _>(Err(e))), ..Outcome::default() },
+            }
+        }
+    }};
+}
+macro_rules! tiny_dataset_sink {
+    ($m:literal, $s:expr, $sp:expr, $insert:expr) => {{
+        if $insert {
+            let mut d = TinyFastDataset::<$m>::new();
+            for q in &$sp.init {
+                let ([s, p, o], g) = q.to_spog();
+                d.insert(s, p, o, g).expect("initial content fits by construction");
+            }
+            let r = $s.add_to_dataset(&mut d);
+            Outcome { res: Some(res_of(r.map(Some))), store: Some(sorted_set(collect_dataset(&d))), ..Outcome::default() }
+        } else {
+            let r: StreamResult<TinyFastDataset<$m>, _, _> = $s.collect_quads();
+            match r {
+                Ok(d) => Outcome { res: Some(Res::Ok(None)), collected: Some(sorted_set(collect_dataset(&d))), ..Outcome::default() },
+                Err(e) => Outcome { res: Some(res_of::<_, _>(Err(e))), ..Outcome::default() },
+            }
+        }
+    }};
+}
+
+fn consume_t<S: TripleSource>(mut s: S, sp: &SinkSpec) -> Outcome {
+    match sp.sink {
+        0 => {
+            let mut seen = vec![];
+            let r = s.try_for_each_item(|t| -> Result<(), Tok> {
+                let i = seen.len() as u32;
+                seen.push(mq_t(&t));
+                if Some(i) == sp.fail_at {
+                    Err(Tok(i))
+                } else {
+                    Ok(())
+                }
+            });
+            Outcome { delivered: Some(seen), res: Some(res_of(r.map(|_| None))), ..Outcome::default() }
+        }
+        1 => {
+            let mut seen = vec![];
+            let r = loop {
+                let step = s.try_for_some_item(|t| -> Result<(), Tok> {
+                    let i = seen.len() as u32;
+                    seen.push(mq_t(&t));
+                    if Some(i) == sp.fail_at {
+                        Err(Tok(i))
+                    } else {
+                        Ok(())
+                    }
+                });
+                match step {
+                    Ok(true) => continue,
+                    Ok(false) => break Ok(None),
+                    Err(e) => break Err(e),
+                }
+            };
+            Outcome { delivered: Some(seen), res: Some(res_of(r)), ..Outcome::default() }
+        }
+        2 => {
+            let mut seen = vec![];
+            let r = s.for_each_item(|t| seen.push(mq_t(&t)));
+            let res = match r {
+                Ok(()) => Res::Ok(None),
+                Err(e) => Res::Src(describe(&e)),
+            };
+            Outcome { delivered: Some(seen), res: Some(res), ..Outcome::default() }
+        }
+        3 => {
+            let r: StreamResult<Vec<[ST; 3]>, _, _> = s.collect_triples();
+            match r {
+                Ok(v) => Outcome { res: Some(Res::Ok(None)), collected: Some(v.iter().map(mq_t).collect()), ..Outcome::default() },
+                Err(e) => Outcome { res: Some(res_of::<_, _>(Err(e))), ..Outcome::default() },
+            }
+        }
+        4 => {
+            let r: StreamResult<HashSet<[ST; 3]>, _, _> = s.collect_triples();
+            match r {
+                Ok(v) => Outcome { res: Some(Res::Ok(None)), collected: Some(sorted_set(v.iter().map(mq_t).collect())), ..Outcome::default() },
+                Err(e) => Outcome { res: Some(res_of::<_, _>(Err(e))), ..Outcome::default() },
+            }
+        }
+        5 => {
+            let r: StreamResult<FastGraph, _, _> = s.collect_triples();
+            match r {
+                Ok(g) => Outcome { res: Some(Res::Ok(None)), collected: Some(sorted_set(collect_graph(&g))), ..Outcome::default() },
+                Err(e) => Outcome { res: Some(res_of::<_, _>(Err(e))), ..Outcome::default() },
+            }
+        }
+        6 | 7 => {
+            let insert = sp.sink == 7;
+            match sp.cap {
+                3 => tiny_graph_sink!(3, s, sp, insert),
+                5 => tiny_graph_sink!(5, s, sp, insert),
+                _ => tiny_graph_sink!(8, s, sp, insert),
+            }
+        }
+        8 => {
+            let mut g = FastGraph::new();
+            for q in &sp.init {
+                let [s, p, o] = q.to_triple();
+                g.insert(s, p, o).expect("FastGraph insert");
+            }
+            let r = g.remove_all(s);
+            Outcome { res: Some(res_of(r.map(Some))), store: Some(sorted_set(collect_graph(&g))), ..Outcome::default() }
+        }
+        9 | 10 => {
+            let mut st = FailStore::new(&sp.init, sp.fail_at);
+            let r = if sp.sink == 9 {
+                MutableGraph::insert_all(&mut st, s)
+            } else {
+                MutableGraph::remove_all(&mut st, s)
+            };
+            Outcome {
+                delivered: Some(st.attempts.clone()),
+                res: Some(res_of(r.map(Some))),
+                store: Some(sorted_set(st.content.clone())),
+                ..Outcome::default()
+            }
+        }
+        11 => {
+            let mut v: Vec<[ST; 3]> = sp.init.iter().map(t_of).collect();
+            let r = s.add_to_graph(&mut v);
+            Outcome { res: Some(res_of(r.map(Some))), store: Some(v.iter().map(mq_t).collect()), ..Outcome::default() }
+        }
+        12 => {
+            let mut w = FailWriter { buf: vec![], limit: sp.fail_at.map(|x| x as usize) };
+            let r = {
+                let mut ser = NtSerializer::new(&mut w);
+                ser.serialize_triples(s).map(|_| None)
+            };
+            Outcome { res: Some(res_of(r)), written: Some(w.buf), ..Outcome::default() }
+        }
+        _ => {
+            let mut w = FailWriter { buf: vec![], limit: sp.fail_at.map(|x| x as usize) };
+            let r = {
+                let mut ser = TurtleSerializer::new(&mut w);
+                ser.serialize_triples(s).map(|_| None)
+            };
+            Outcome { res: Some(res_of(r)), written: Some(w.buf), ..Outcome::default() }
+        }
+    }
+}
+
+fn consume_q<S: QuadSource>(mut s: S, sp: &SinkSpec) -> Outcome {
+    match sp.sink {
+        0 => {
+            let mut seen = vec![];
+            let r = s.try_for_each_item(|q| -> Result<(), Tok> {
+                let i = seen.len() as u32;
+                seen.push(mq_q(&q));
+                if Some(i) == sp.fail_at {
+                    Err(Tok(i))
+                } else {
+                    Ok(())
+                }
+            });
+            Outcome { delivered: Some(seen), res: Some(res_of(r.map(|_| None))), ..Outcome::default() }
+        }
+        1 => {
+            let mut seen = vec![];
+            let r = loop {
+                let step = s.try_for_some_item(|q| -> Result<(), Tok> {
+                    let i = seen.len() as u32;
+                    seen.push(mq_q(&q));
+                    if Some(i) == sp.fail_at {
+                        Err(Tok(i))
+                    } else {
+                        Ok(())
+                    }
+                });
+                match step {
+                    Ok(true) => continue,
+                    Ok(false) => break Ok(None),
+                    Err(e) => break Err(e),
+                }
+            };
+            Outcome { delivered: Some(seen), res: Some(res_of(r)), ..Outcome::default() }
+        }
+        2 => {
+            let mut seen = vec![];
+            let r = s.for_each_item(|q| seen.push(mq_q(&q)));
+            let res = match r {
+                Ok(()) => Res::Ok(None),
+                Err(e) => Res::Src(describe(&e)),
+            };
+            Outcome { delivered: Some(seen), res: Some(res), ..Outcome::default() }
+        }
+        3 => {
+            let r: StreamResult<Vec<Spog<ST>>, _, _> = s.collect_quads();
+            match r {
+                Ok(v) => Outcome { res: Some(Res::Ok(None)), collected: Some(v.iter().map(mq_q).collect()), ..Outcome::default() },
+                Err(e) => Outcome { res: Some(res_of::<_, _>(Err(e))), ..Outcome::default() },
+            }
+        }
+        4 => {
+            let r: StreamResult<HashSet<Spog<ST>>, _, _> = s.collect_quads();
+            match r {
+                Ok(v) => Outcome { res: Some(Res::Ok(None)), collected: Some(sorted_set(v.iter().map(mq_q).collect())), ..Outcome::default() },
+                Err(e) => Outcome { res: Some(res_of::<_, _>(Err(e))), ..Outcome::default() },
+            }
+        }
+        5 => {
+            let r: StreamResult<FastDataset, _, _> = s.collect_quads();
+            match r {
+                Ok(d) => Outcome { res: Some(Res::Ok(None)), collected: Some(sorted_set(collect_dataset(&d))), ..Outcome::default() },
+                Err(e) => Outcome { res: Some(res_of::<_, _>(Err(e))), ..Outcome::default() },
+            }
+        }
+        6 | 7 => {
+            let insert = sp.sink == 7;
+            match sp.cap {
+                3 => tiny_dataset_sink!(3, s, sp, insert),
+                5 => tiny_dataset_sink!(5, s, sp, insert),
+                _ => tiny_dataset_sink!(8, s, sp, insert),
+            }
+        }
+        8 => {
+            let mut d = FastDataset::new();
+            for q in &sp.init {
+                let ([s, p, o], g) = q.to_spog();
+                d.insert(s, p, o, g).expect("FastDataset insert");
+            }
+            let r = d.remove_all(s);
+            Outcome { res: Some(res_of(r.map(Some))), store: Some(sorted_set(collect_dataset(&d))), ..Outcome::default() }
+        }
+        9 | 10 => {
+            let mut st = FailStore::new(&sp.init, sp.fail_at);
+            let r = if sp.sink == 9 {
+                MutableDataset::insert_all(&mut st, s)
+            } else {
+                MutableDataset::remove_all(&mut st, s)
+            };
+            Outcome {
+                delivered: Some(st.attempts.clone()),
+                res: Some(res_of(r.map(Some))),
+                store: Some(sorted_set(st.content.clone())),
+                ..Outcome::default()
+            }
+        }
+        11 => {
+            let mut v: Vec<Spog<ST>> = sp.init.iter().map(q_of).collect();
+            let r = s.add_to_dataset(&mut v);
+            Outcome { res: Some(res_of(r.map(Some))), store: Some(v.iter().map(mq_q).collect()), ..Outcome::default() }
+        }
+        12 => {
+            let mut w = FailWriter { buf: vec![], limit: sp.fail_at.map(|x| x as usize) };
+            let r = {
+                let mut ser = NqSerializer::new(&mut w);
+                ser.serialize_quads(s).map(|_| None)
+            };
+            Outcome { res: Some(res_of(r)), written: Some(w.buf), ..Outcome::default() }
+        }
+        _ => {
+            let mut w = FailWriter { buf: vec![], limit: sp.fail_at.map(|x| x as usize) };
+            let r = {
+                let mut ser = TrigSerializer::new(&mut w);
+                ser.serialize_quads(s).map(|_| None)
+            };
+            Outcome { res: Some(res_of(r)), written: Some(w.buf), ..Outcome::default() }
+        }
+    }
+}
+
+// ------------------------------------------------------------------ running one pipeline
+
+struct Plan<'c> {
+    kind: usize,
+    chain: &'c [u8],
+    ii: bool,
+    direct: Option<usize>,
+    /// the source sequence (as the source will yield it)
+    src: Vec<MQ>,
+    /// effective source fault
+    src_fault: Option<usize>,
+    /// parser kinds: 1-based line of the injected syntax error
+    fault_line: Option<usize>,
+    /// the items in generation order (set-store sources are built from them)
+    raw: Vec<MQ>,
+}
+
+/// Build the source + chain and run the consumer once. Returns (outcome, pulls).
+fn execute(plan: &Plan, sp: &SinkSpec) -> (Outcome, Option<usize>) {
+    let pulls = Rc::new(Cell::new(0usize));
+    let kind = plan.kind;
+    let chain = plan.chain;
+    let ii = plan.ii;
+    let src = &plan.src;
+    let text = if (2..=6).contains(&kind) { text_for(kind, src, plan.src_fault) } else { String::new() };
+    let vt: Vec<[ST; 3]> = if kind == 7 { src.iter().map(t_of).collect() } else { vec![] };
+    let vq: Vec<Spog<ST>> = if kind == 8 { src.iter().map(q_of).collect() } else { vec![] };
+    let fg: FastGraph = if kind == 9 { plan.raw.iter().map(|q| Ok::<_, Infallible>(t_of(q))).collect_triples().expect("FastGraph") } else { FastGraph::new() };
+    let fd: FastDataset = if kind == 10 { plan.raw.iter().map(|q| Ok::<_, Infallible>(q_of(q))).collect_quads().expect("FastDataset") } else { FastDataset::new() };
+    let mk_it = || FaultyIter { items: src.iter().map(t_of).collect::<Vec<_>>(), pos: 0, fault: plan.src_fault, fired: false, pulls: pulls.clone() };
+    let mk_iq = || FaultyIter { items: src.iter().map(q_of).collect::<Vec<_>>(), pos: 0, fault: plan.src_fault, fired: false, pulls: pulls.clone() };
+
+    let out = if let Some(d) = plan.direct {
+        // fully static pipelines, no shim (must mirror DIRECT)
+        match d {
+            0 => consume_t(map_t!(flt_t!(mk_it(), 0), 1), sp),
+            1 => consume_q(fm_t!(NTriplesParser {}.parse_str(&text), 0).to_quads(), sp),
+            2 => consume_t(flt_t!(NQuadsParser {}.parse_str(&text).to_triples(), 1), sp),
+            3 => consume_t(map_t!(vt.triples(), 0).into_iter(), sp),
+            4 => consume_t(flt_t!(TurtleParser { base: None }.parse_str(&text), 0), sp),
+            5 => consume_t(fm_q!(mk_iq(), 0).to_triples(), sp),
+            6 => consume_q(fm_q!(map_q!(flt_q!(TriGParser { base: None }.parse_str(&text), 0), 1), 2), sp),
+            7 => consume_q(flt_q!(map_q!(fd.quads(), 0), 1), sp),
+            8 => consume_t(mk_it(), sp),
+            9 => consume_t(NTriplesParser {}.parse_str(&text), sp),
+            10 => consume_q(fm_q!(flt_q!(mk_iq(), 0), 1).into_iter(), sp),
+            _ => consume_t(map_t!(map_t!(map_t!(TurtleParser { base: None }.parse_str(&text), 0), 1), 2), sp),
+        }
+    } else {
+        let built = match kind {
+            0 => D3::go_t(mk_it(), chain, 0, ii),
+            1 => D3::go_q(mk_iq(), chain, 0, ii),
+            2 => D3::go_t(NTriplesParser {}.parse_str(&text), chain, 0, ii),
+            3 => D3::go_q(NQuadsParser {}.parse_str(&text), chain, 0, ii),
+            4 | 5 => D3::go_t(TurtleParser { base: None }.parse_str(&text), chain, 0, ii),
+            6 => D3::go_q(TriGParser { base: None }.parse_str(&text), chain, 0, ii),
+            7 => D3::go_t(vt.triples(), chain, 0, ii),
+            8 => D3::go_q(vq.quads(), chain, 0, ii),
+            9 => D3::go_t(fg.triples(), chain, 0, ii),
+            _ => D3::go_q(fd.quads(), chain, 0, ii),
+        };
+        match built {
+            Built::T(b) => consume_t(b, sp),
+            Built::Q(b) => consume_q(b, sp),
+        }
+    };
+    let p = if kind_counts_pulls(kind) { Some(pulls.get()) } else { None };
+    (out, p)
+}
+
+// ------------------------------------------------------------------ the check
+
+pub struct C15;
+
+fn show_seq(v: &[MQ]) -> String {
+    v.iter().map(MQ::show).collect::<Vec<_>>().join(" | ")
+}
+
+/// terms of a quad that occupy a slot of the term index
+fn index_terms(q: &MQ) -> Vec<MT> {
+    let mut v = vec![q.s.clone(), q.p.clone(), q.o.clone()];
+    if let Some(g) = &q.g {
+        v.push(g.clone());
+    }
+    v
+}
+
+fn normalise(case: &Case) -> (usize, Vec<u8>, bool, usize, Option<usize>) {
+    let kind = case.kind as usize % KINDS.len();
+    let chain: Vec<u8> = case.chain.iter().take(3).map(|a| a % 4).collect();
+    let ii = case.into_iter && matches!(chain.last(), Some(1) | Some(2));
+    let sink = case.sink as usize % SINKS.len();
+    let direct = if case.direct {
+        DIRECT.iter().position(|(k, c, i)| *k as usize == kind && *c == chain.as_slice() && *i == ii)
+    } else {
+        None
+    };
+    (kind, chain, ii, sink, direct)
+}
+
+impl Check for C15 {
+    type Case = Case;
+    const ID: &'static str = "C15";
+    const LEVEL: &'static str = "fault_enumeration";
+    fn rule() -> String {
+        "fixed part: for 6 (thorough: 12) item sequences (one fixed, the others derived from the seed; length 6, thorough 10), the full product source kind (11) x adapter chain (all 85 sequences of length <= 3 over filter/map/filter_map/convert, plus into_iter() of a final map/filter_map: 127) x consumer (14) x fault (none, source fault at every k, sink fault at every k), restricted to applicable combinations, plus 12 statically typed pipelines x consumers x faults; generated part: random item sequences / chains / consumers / faults. Non-trivial = a fault actually fired (source error, sink error or index full) in a pipeline with at least one adapter; distinct by hash of the case.".into()
+    }
+    fn assumptions() -> Vec<String> {
+        vec![
+            "between the last adapter and the consumer (and nowhere else) sits a type-erasing Source shim written in the harness; the adapters themselves are the real ones nested directly; 12 pipelines are also run without any shim".into(),
+            "source order of FastGraph/FastDataset sources is taken from a separate enumeration of the same store (set stores have no intrinsic order)".into(),
+            "a parser source fault is a statement without object on line k+1; the reported error must be a source error mentioning that line".into(),
+            "serializers: the bytes accepted by the writer before the failure must be a prefix of the fault-free output; for N-Triples/N-Quads the number of complete lines identifies the failing item".into(),
+            "the injected error value is recognised by an identity token reachable through io::Error::get_ref / Error::source".into(),
+            "Tiny index capacity M: an insertion fails iff it would bring the number of distinct terms above M".into(),
+        ]
+    }
+    fn cases(tier: Tier) -> u32 {
+        tier.pick(500_000, 40_000_000)
+    }
+    fn strategy(tier: Tier) -> BoxedStrategy<Case> {
+        let maxn = tier.pick(8usize, 12usize);
+        let item = (0..3u8, 0..2u8, 0..5u8, 0..3u8).prop_map(|(s, p, o, g)| Item { s, p, o, g });
+        let fault = prop_oneof![
+            1 => Just(Fault::None),
+            3 => (0..maxn as u8).prop_map(Fault::Source),
+            3 => (0..maxn as u8).prop_map(Fault::Sink),
+        ];
+        (
+            0..KINDS.len() as u8,
+            prop::collection::vec(item, 0..=maxn),
+            prop::collection::vec(0..4u8, 0..=3),
+            any::<bool>(),
+            0..SINKS.len() as u8,
+            fault,
+            0..6u8,
+            prop::bool::weighted(0.1),
+        )
+            .prop_map(|(kind, items, chain, into_iter, sink, fault, aux, direct)| {
+                let mut c = Case { kind, items, chain, into_iter, sink, fault, aux, direct };
+                if c.direct {
+                    // make the static pipelines reachable: pick one of them
+                    let (k, ch, ii) = DIRECT[(c.aux as usize + c.sink as usize) % DIRECT.len()];
+                    c.kind = k;
+                    c.chain = ch.to_vec();
+                    c.into_iter = ii;
+                }
+                c
+            })
+            .boxed()
+    }
+    fn fixed_cases(tier: Tier, seed: u64) -> Vec<Case> {
+        let n = tier.pick(6usize, 10usize);
+        let nseq = tier.pick(6usize, 12usize);
+        let mut seqs: Vec<Vec<Item>> = vec![];
+        // a fixed sequence with a repeated item, a shared subject run and every object kind
+        let fixed = [(0, 0, 0, 0), (0, 1, 2, 1), (1, 0, 3, 0), (0, 0, 0, 0), (2, 1, 4, 2), (2, 0, 1, 1), (1, 1, 2, 0), (0, 1, 1, 2), (2, 0, 0, 0), (1, 0, 4, 1)];
+        seqs.push(fixed.iter().take(n).map(|&(s, p, o, g)| Item { s, p, o, g }).collect());
+        let mut x = seed.wrapping_mul(0x9E37_79B9_7F4A_7C15) | 1;
+        for _ in 1..nseq {
+            let mut v = vec![];
+            for _ in 0..n {
+                x ^= x << 13;
+                x ^= x >> 7;
+                x ^= x << 17;
+                v.push(Item { s: (x % 3) as u8, p: ((x >> 8) % 2) as u8, o: ((x >> 16) % 5) as u8, g: ((x >> 24) % 3) as u8 });
+            }
+            seqs.push(v);
+        }
+        // all chains
+        let mut chains: Vec<(Vec<u8>, bool)> = vec![(vec![], false)];
+        for len in 1..=3usize {
+            for code in 0..4usize.pow(len as u32) {
+                let ch: Vec<u8> = (0..len).map(|i| ((code / 4usize.pow(i as u32)) % 4) as u8).collect();
+                chains.push((ch.clone(), false));
+                if matches!(ch.last(), Some(1) | Some(2)) {
+                    chains.push((ch, true));
+                }
+            }
+        }
+        let mut out = vec![];
+        let faults = |kind: usize, sink: usize| -> Vec<(Fault, u8)> {
+            let mut f = vec![];
+            if sink_fails_by_capacity(sink) {
+                for aux in 0..3u8 {
+                    f.push((Fault::None, aux));
+                }
+            } else {
+                f.push((Fault::None, 0));
+            }
+            if kind_can_fail(kind) {
+                for k in 0..n as u8 {
+                    f.push((Fault::Source(k), 1));
+                }
+            }
+            if sink_can_fail(sink) {
+                for k in 0..n as u8 {
+                    if sink == 12 {
+                        for aux in 0..3u8 {
+                            f.push((Fault::Sink(k), aux));
+                        }
+                    } else {
+                        f.push((Fault::Sink(k), k % 2));
+                    }
+                }
+            }
+            f
+        };
+        for items in &seqs {
+            for kind in 0..KINDS.len() {
+                for (chain, ii) in &chains {
+                    for sink in 0..SINKS.len() {
+                        for (fault, aux) in faults(kind, sink) {
+                            out.push(Case { kind: kind as u8, items: items.clone(), chain: chain.clone(), into_iter: *ii, sink: sink as u8, fault, aux, direct: false });
+                        }
+                    }
+                }
+            }
+            for (kind, chain, ii) in DIRECT {
+                for sink in 0..SINKS.len() {
+                    for (fault, aux) in faults(*kind as usize, sink) {
+                        out.push(Case { kind: *kind, items: items.clone(), chain: chain.to_vec(), into_iter: *ii, sink: sink as u8, fault, aux, direct: true });
+                    }
+                }
+            }
+        }
+        out
+    }
+    fn show(case: &Case) -> Value {
+        let (kind, chain, ii, sink, direct) = normalise(case);
+        json!({
+            "source": KINDS[kind],
+            "items": case.items.iter().map(|i| item_mq(i, kind_is_quads(kind)).show()).collect::<Vec<_>>(),
+            "chain": chain.iter().map(|a| ADAPTERS[*a as usize]).collect::<Vec<_>>(),
+            "into_iter": ii,
+            "consumer": SINKS[sink],
+            "fault": format!("{:?}", case.fault),
+            "aux": case.aux,
+            "static_pipeline": direct.is_some(),
+        })
+    }
+    fn run(case: &Case, ctx: &mut Ctx) {
+        let (kind, chain, ii, sink, direct) = normalise(case);
+        let quads0 = kind_is_quads(kind);
+        let mut src: Vec<MQ> = case.items.iter().map(|i| item_mq(i, quads0)).collect();
+        let raw = src.clone();
+        if kind == 9 || kind == 10 {
+            // set store: its own enumeration order is the source order
+            src = if kind == 9 {
+                let g: FastGraph = src.iter().map(|q| Ok::<_, Infallible>(t_of(q))).collect_triples().expect("FastGraph");
+                collect_graph(&g)
+            } else {
+                let d: FastDataset = src.iter().map(|q| Ok::<_, Infallible>(q_of(q))).collect_quads().expect("FastDataset");
+                collect_dataset(&d)
+            };
+        }
+        let n = src.len();
+        let src_fault = match case.fault {
+            Fault::Source(k) if (k as usize) < n && kind_can_fail(kind) => Some(k as usize),
+            _ => None,
+        };
+        ctx.class(format!("source:{}", KINDS[kind]));
+        ctx.class(format!("consumer:{}", SINKS[sink]));
+        ctx.class(format!("chain-length:{}", chain.len()));
+        for a in &chain {
+            ctx.class(format!("adapter:{}", ADAPTERS[*a as usize]));
+        }
+        if ii {
+            ctx.class("adapter:into_iter");
+        }
+        if direct.is_some() {
+            ctx.class("pipeline:static(no shim)");
+        }
+        let cut = src_fault.unwrap_or(n);
+        let image = model_image(&src[..cut], &chain);
+        let full_image = model_image(&src, &chain);
+        let fq = final_is_quads(kind, &chain);
+        debug_assert!(fq || image.iter().all(|(_, q)| q.g.is_none()));
+
+        // ---- consumer set-up
+        let cap = [3u8, 5, 8][case.aux as usize % 3];
+        let mut init: Vec<MQ> = vec![];
+        match sink {
+            7 => {
+                // a prefix of candidates that fits the index
+                let mut terms: BTreeSet<MT> = BTreeSet::new();
+                for (_, q) in full_image.iter().skip(1).step_by(2) {
+                    let mut t2 = terms.clone();
+                    t2.extend(index_terms(q));
+                    if t2.len() > cap as usize {
+                        break;
+                    }
+                    terms = t2;
+                    if !init.contains(q) {
+                        init.push(q.clone());
+                    }
+                }
+            }
+            8 | 10 => {
+                for (i, (_, q)) in full_image.iter().enumerate() {
+                    if i % 3 != 2 && !init.contains(q) {
+                        init.push(q.clone());
+                    }
+                }
+                init.push(MQ::new(MT::iri("http://x/other"), MT::iri("http://x/p0"), MT::string("unrelated"), None));
+            }
+            9 | 11 => {
+                for (_, q) in full_image.iter().skip(1).step_by(2) {
+                    if !init.contains(q) {
+                        init.push(q.clone());
+                    }
+                }
+            }
+            _ => {}
+        }
+        let sink_fault_req: Option<u32> = match case.fault {
+            Fault::Sink(k) if sink_can_fail(sink) && src_fault.is_none() => Some(k as u32),
+            _ => None,
+        };
+        let fault_line = if (2..=6).contains(&kind) && src_fault.is_some() {
+            let text = text_for(kind, &src, src_fault);
+            text.find(BAD_LINE).map(|off| text[..off].matches('\n').count() + 1)
+        } else {
+            None
+        };
+        let plan = Plan { kind, chain: &chain, ii, direct, src: src.clone(), src_fault, fault_line, raw };
+        let mut sp = SinkSpec { sink, fail_at: None, cap, init: init.clone() };
+
+        // serializers: fault-free output first, then the byte limit inside statement k
+        let mut free_output: Option<Vec<u8>> = None;
+        if sink == 12 || sink == 13 {
+            let (o0, p0) = execute(&plan, &sp);
+            let w0 = o0.written.clone().unwrap_or_default();
+            if let Some(k) = sink_fault_req {
+                let limit = if sink == 12 {
+                    // start of line k (+ an offset inside the line)
+                    let starts: Vec<usize> = std::iter::once(0).chain(w0.iter().enumerate().filter(|(_, b)| **b == b'\n').map(|(i, _)| i + 1)).collect();
+                    // aux: first byte of the statement / inside its subject / on its final " .\n"
+                    match (starts.get(k as usize).filter(|s| **s < w0.len()), case.aux % 3) {
+                        (Some(s), 0) => Some(*s),
+                        (Some(s), 1) => Some(s + 9),
+                        (Some(_), _) => starts.get(k as usize + 1).map(|e| e - 1),
+                        _ => None,
+                    }
+                } else {
+                    let l = k as usize * 17 + case.aux as usize;
+                    if l < w0.len() { Some(l) } else { None }
+                };
+                sp.fail_at = limit.map(|l| l as u32);
+            }
+            if sp.fail_at.is_some() {
+                free_output = Some(w0);
+            } else {
+                // judge the fault-free run itself
+                judge(ctx, case, &plan, &sp, &image, fq, o0, p0, None);
+                return;
+            }
+        } else {
+            sp.fail_at = sink_fault_req;
+        }
+
+        let (out, pulls) = execute(&plan, &sp);
+        judge(ctx, case, &plan, &sp, &image, fq, out, pulls, free_output);
+    }
+}
+
+fn sig(what: &str, plan: &Plan, sp: &SinkSpec) -> String {
+    // keyed on the trigger: what went wrong, at which stage of which kind of pipeline
+    let last = match (plan.chain.last(), plan.ii) {
+        (None, _) => "no-adapter".to_string(),
+        (Some(a), false) => ADAPTERS[*a as usize].to_string(),
+        (Some(a), true) => format!("{}.into_iter", ADAPTERS[*a as usize]),
+    };
+    format!("stream/{what}/{}/{}/{}", KINDS[plan.kind], last, SINKS[sp.sink])
+}
+
+#[allow(clippy::too_many_arguments)]
+fn judge(ctx: &mut Ctx, case: &Case, plan: &Plan, sp: &SinkSpec, image: &[(usize, MQ)], fq: bool, out: Outcome, pulls: Option<usize>, free_output: Option<Vec<u8>>) {
+    let n = plan.src.len();
+    let img: Vec<MQ> = image.iter().map(|(_, q)| q.clone()).collect();
+    let res = out.res.clone().expect("every consumer reports a result");
+    let ctxt = |extra: String| -> String {
+        format!(
+            "{extra}\n source {} yields: {}\n source fault: {:?}; chain: {:?}{}; consumer: {} (fail_at {:?}, cap {}); expected image: {}\n result: {:?}; delivered: {}; pulls: {:?}",
+            KINDS[plan.kind],
+            show_seq(&plan.src),
+            plan.src_fault,
+            plan.chain.iter().map(|a| ADAPTERS[*a as usize]).collect::<Vec<_>>(),
+            if plan.ii { " + into_iter" } else { "" },
+            SINKS[sp.sink],
+            sp.fail_at,
+            sp.cap,
+            show_seq(&img),
+            res,
+            out.delivered.as_ref().map(|d| show_seq(d)).unwrap_or_else(|| "-".into()),
+            pulls
+        )
+    };
+    let mut fired = false;
+
+    // ---- which fault is expected to fire, and where
+    // index of the delivered item on which the sink fails (None: the sink does not fail)
+    let sink_fail_idx: Option<usize> = match sp.sink {
+        0 | 1 | 9 | 10 => sp.fail_at.map(|k| k as usize).filter(|k| *k < img.len()),
+        6 | 7 => {
+            let mut terms: BTreeSet<MT> = BTreeSet::new();
+            for q in &sp.init {
+                terms.extend(index_terms(q));
+            }
+            let mut hit = None;
+            for (i, q) in img.iter().enumerate() {
+                let mut t2 = terms.clone();
+                t2.extend(index_terms(q));
+                if t2.len() > sp.cap as usize {
+                    hit = Some(i);
+                    break;
+                }
+                terms = t2;
+            }
+            hit
+        }
+        _ => None,
+    };
+
+    match sp.sink {
+        // ------------------------------------------------ closures and the failing store
+        0 | 1 | 2 | 9 | 10 => {
+            let delivered = out.delivered.clone().unwrap_or_default();
+            let expected: Vec<MQ> = match sink_fail_idx {
+                Some(j) => img[..=j].to_vec(),
+                None => img.clone(),
+            };
+            if delivered != expected {
+                // keyed on the kind of deviation
+                let what = if delivered.len() > expected.len() && delivered[..expected.len()] == expected[..] {
+                    "delivered-after-stop"
+                } else if delivered.len() < expected.len() && expected[..delivered.len()] == delivered[..] {
+                    "prefix-too-short"
+                } else {
+                    "wrong-items-or-order"
+                };
+                ctx.fail(sig(what, plan, sp), ctxt(format!("the consumer saw a different sequence than the filter/map image of the source prefix; expected: {}", show_seq(&expected))));
+            }
+            match sink_fail_idx {
+                Some(j) => {
+                    fired = true;
+                    match &res {
+                        Res::Sink(e) if e.tok == Some(j as u32) => {}
+                        _ => ctx.fail(sig("sink-error-not-reported", plan, sp), ctxt(format!("the consumer failed on delivery #{j} with Tok({j}); expected SinkError carrying it"))),
+                    }
+                    if let Some(p) = pulls {
+                        let want = image[j].0 + 1;
+                        if p != want {
+                            ctx.fail(sig("pull-after-stop", plan, sp), ctxt(format!("after the sink failure on source item #{} the source had been pulled {p} times, expected {want}", image[j].0)));
+                        }
+                    }
+                }
+                None => check_no_sink_fault(ctx, plan, sp, &res, pulls, n, &mut fired, &ctxt),
+            }
+            if sp.sink == 9 || sp.sink == 10 {
+                let applied: &[MQ] = match sink_fail_idx {
+                    Some(j) => &img[..j],
+                    None => &img[..],
+                };
+                let (exp_store, changes) = apply_set(&sp.init, applied, sp.sink == 9);
+                if out.store.as_ref() != Some(&exp_store) {
+                    ctx.fail(sig("store-content", plan, sp), ctxt(format!("store content after the call differs from the prefix applied; expected: {}; got: {}", show_seq(&exp_store), show_seq(out.store.as_deref().unwrap_or(&[])))));
+                }
+                if let Res::Ok(c) = &res {
+                    if *c != Some(changes) {
+                        ctx.fail(sig("count", plan, sp), ctxt(format!("returned count {c:?}, effective changes {changes}")));
+                    }
+                }
+            }
+        }
+        // ------------------------------------------------ collectors
+        3 | 4 | 5 | 6 => {
+            match sink_fail_idx {
+                Some(j) => {
+                    fired = true;
+                    match &res {
+                        Res::Sink(e) if e.text.contains("TermIndex") => {}
+                        _ => ctx.fail(sig("sink-error-not-reported", plan, sp), ctxt(format!("the term index (capacity {}) is full at delivered item #{j}; expected SinkError(TermIndexFullError)", sp.cap))),
+                    }
+                    if let Some(p) = pulls {
+                        let want = image[j].0 + 1;
+                        if p != want {
+                            ctx.fail(sig("pull-after-stop", plan, sp), ctxt(format!("after the sink failure the source had been pulled {p} times, expected {want}")));
+                        }
+                    }
+                }
+                None => {
+                    check_no_sink_fault(ctx, plan, sp, &res, pulls, n, &mut fired, &ctxt);
+                    if plan.src_fault.is_none() {
+                        let exp = if sp.sink == 3 { img.clone() } else { sorted_set(img.clone()) };
+                        if out.collected.as_ref() != Some(&exp) {
+                            ctx.fail(sig("collected-content", plan, sp), ctxt(format!("collected container differs; expected: {}; got: {}", show_seq(&exp), show_seq(out.collected.as_deref().unwrap_or(&[])))));
+                        }
+                    }
+                }
+            }
+        }
+        // ------------------------------------------------ real stores
+        7 | 8 | 11 => {
+            let applied: &[MQ] = match sink_fail_idx {
+                Some(j) => &img[..j],
+                None => &img[..],
+            };
+            match sink_fail_idx {
+                Some(j) => {
+                    fired = true;
+                    match &res {
+                        Res::Sink(e) if e.text.contains("TermIndex") => {}
+                        _ => ctx.fail(sig("sink-error-not-reported", plan, sp), ctxt(format!("the term index (capacity {}) is full at delivered item #{j}; expected SinkError(TermIndexFullError)", sp.cap))),
+                    }
+                    if let Some(p) = pulls {
+                        let want = image[j].0 + 1;
+                        if p != want {
+                            ctx.fail(sig("pull-after-stop", plan, sp), ctxt(format!("after the sink failure the source had been pulled {p} times, expected {want}")));
+                        }
+                    }
+                }
+                None => check_no_sink_fault(ctx, plan, sp, &res, pulls, n, &mut fired, &ctxt),
+            }
+            let (exp_store, changes) = if sp.sink == 11 {
+                // Vec: a list, every insertion is "effective"
+                let mut v = sp.init.clone();
+                v.extend(applied.iter().cloned());
+                (v, applied.len())
+            } else {
+                apply_set(&sp.init, applied, sp.sink == 7)
+            };
+            if out.store.as_ref() != Some(&exp_store) {
+                ctx.fail(sig("store-content", plan, sp), ctxt(format!("store content after the call differs from the prefix applied; expected: {}; got: {}", show_seq(&exp_store), show_seq(out.store.as_deref().unwrap_or(&[])))));
+            }
+            if let Res::Ok(c) = &res {
+                if *c != Some(changes) {
+                    ctx.fail(sig("count", plan, sp), ctxt(format!("returned count {c:?}, effective changes {changes}")));
+                }
+            }
+        }
+        // ------------------------------------------------ serializers
+        _ => {
+            let written = out.written.clone().unwrap_or_default();
+            match (&free_output, sp.fail_at) {
+                (Some(w0), Some(limit)) => {
+                    fired = true;
+                    let limit = limit as usize;
+                    match &res {
+                        Res::Sink(e) if e.tok == Some(limit as u32) => {}
+                        _ => ctx.fail(sig("sink-error-not-reported", plan, sp), ctxt(format!("the writer failed with Tok({limit}) once more than {limit} bytes were offered; expected SinkError carrying that io::Error"))),
+                    }
+                    if written.len() > limit || !w0.starts_with(&written) {
+                        ctx.fail(sig("output-not-a-prefix", plan, sp), ctxt(format!("bytes accepted before the failure are not a prefix of the fault-free output\n fault-free: {:?}\n got: {:?}", String::from_utf8_lossy(w0), String::from_utf8_lossy(&written))));
+                    }
+                    if sp.sink == 12 {
+                        let lines = written.iter().filter(|b| **b == b'\n').count();
+                        if let (Some(p), true) = (pulls, lines < image.len()) {
+                            let want = image[lines].0 + 1;
+                            if p != want {
+                                ctx.fail(sig("pull-after-stop", plan, sp), ctxt(format!("the writer failed inside statement #{lines}; the source had been pulled {p} times, expected {want}")));
+                            }
+                        }
+                    }
+                }
+                _ => {
+                    check_no_sink_fault(ctx, plan, sp, &res, pulls, n, &mut fired, &ctxt);
+                    let text = String::from_utf8_lossy(&written).to_string();
+                    if sp.sink == 12 {
+                        match nqread::parse_nquads(&text) {
+                            Ok(got) => {
+                                if got != img {
+                                    ctx.fail(sig("serialized-content", plan, sp), ctxt(format!("the N-Triples/N-Quads output does not list the image in order:\n{text}")));
+                                }
+                            }
+                            Err(e) => ctx.fail(sig("serialized-content", plan, sp), ctxt(format!("output is not valid N-Quads ({e}):\n{text}"))),
+                        }
+                    } else if plan.src_fault.is_none() {
+                        // Turtle / TriG: re-read with the matching parser, compare as sequences
+                        let got: Result<Vec<MQ>, String> = if fq {
+                            TriGParser { base: None }
+                                .parse_str(&text)
+                                .collect_quads::<Vec<Spog<ST>>>()
+                                .map(|v| v.iter().map(mq_q).collect())
+                                .map_err(|e| e.to_string())
+                        } else {
+                            TurtleParser { base: None }
+                                .parse_str(&text)
+                                .collect_triples::<Vec<[ST; 3]>>()
+                                .map(|v| v.iter().map(mq_t).collect())
+                                .map_err(|e| e.to_string())
+                        };
+                        match got {
+                            Ok(g) if g == img => {}
+                            other => ctx.fail(sig("serialized-content", plan, sp), ctxt(format!("the Turtle/TriG output does not read back as the image in order ({other:?}):\n{text}"))),
+                        }
+                    }
+                }
+            }
+        }
+    }
+    if fired {
+        ctx.class("fault-fired");
+        ctx.class(match &res {
+            Res::Src(_) => "result:source-error",
+            Res::Sink(_) => "result:sink-error",
+            Res::Ok(_) => "result:ok(!)",
+        });
+        if !plan.chain.is_empty() {
+            ctx.nontrivial();
+        }
+    } else {
+        ctx.class("no-fault-fired");
+    }
+    let _ = case;
+}
+
+/// No sink fault is expected: either the source fault fires (source error with the right
+/// identity, everything before it consumed) or the stream completes.
+#[allow(clippy::too_many_arguments)]
+fn check_no_sink_fault(ctx: &mut Ctx, plan: &Plan, sp: &SinkSpec, res: &Res, pulls: Option<usize>, n: usize, fired: &mut bool, ctxt: &dyn Fn(String) -> String) {
+    match plan.src_fault {
+        Some(k) => {
+            *fired = true;
+            match res {
+                Res::Src(e) => {
+                    if kind_counts_pulls(plan.kind) {
+                        if e.tok != Some(k as u32) {
+                            ctx.fail(sig("source-error-identity", plan, sp), ctxt(format!("the source failed with Tok({k}); the reported source error does not carry it")));
+                        }
+                    } else if !e.text.contains(&format!("on line {} ", plan.fault_line.unwrap_or(0))) {
+                        ctx.fail(sig("source-error-identity", plan, sp), ctxt(format!("the syntax error is on line {:?}; reported: {}", plan.fault_line, e.text)));
+                    }
+                }
+                _ => ctx.fail(sig("source-error-not-reported", plan, sp), ctxt(format!("the source failed at item #{k}; expected SourceError"))),
+            }
+            if let Some(p) = pulls {
+                if p != k + 1 {
+                    ctx.fail(sig("pull-after-stop", plan, sp), ctxt(format!("after the source failure at #{k} the source had been pulled {p} times, expected {}", k + 1)));
+                }
+            }
+        }
+        None => {
+            if !matches!(res, Res::Ok(_)) {
+                ctx.fail(sig("spurious-error", plan, sp), ctxt("no fault was injected but an error was reported".into()));
+            }
+            if let Some(p) = pulls {
+                if p != n + 1 {
+                    ctx.fail(sig("pull-count", plan, sp), ctxt(format!("a complete run must pull the {n} items and the end marker exactly once ({} pulls), got {p}", n + 1)));
+                }
+            }
+        }
+    }
+}
+
+/// set-store model: apply insertions / removals, return (sorted content, effective changes)
+fn apply_set(init: &[MQ], items: &[MQ], insert: bool) -> (Vec<MQ>, usize) {
+    let mut s: BTreeSet<MQ> = init.iter().cloned().collect();
+    let mut c = 0;
+    for q in items {
+        let ch = if insert { s.insert(q.clone()) } else { s.remove(q) };
+        if ch {
+            c += 1;
+        }
+    }
+    (s.into_iter().collect(), c)
+}
+
+pub fn main(opts: &Opts) -> i32 {
+    drive::<C15>(opts)
 }
 pub fn worker(_args: &[String]) -> i32 {
     2
